@@ -109,7 +109,8 @@ def check_case(ctx, case):
             raise CheckFailure(f'parse_qsl({s!r}) = {got!r} / append mode {acc!r}, sent pairs {pairs!r}')
     # (2) through a request -- served twice on one application: what the handler got is mutated in place after the first
     # request (lists sorted / extended, entries added), the identical second request must decode to the same pairs again
-    app = ombott.Ombott()
+    # (a configured max_body_size that the body just fits - equal or one above - has no say)
+    app = ombott.Ombott({'max_body_size': len(body) + case['style'][0] % 2} if case['style'][0] % 3 == 0 else None)
     seen = {}
 
     def h():
@@ -168,7 +169,7 @@ def check_case(ctx, case):
         if case['chunked']:
             from vlib.encoders import encode_chunked
             wire, _ = encode_chunked(body, [11, 3, 47, 26, 250], [{'upper': bool(case['style'][0] % 2), 'zeros': case['style'][0] % 3}])      # chunk sizes with hex letters in either case
-            env = make_environ(case['method'], '/q', qs=qs, stream=FragStream(wire, case.get('pattern') or []), content_length=None, headers=dict(headers, **{'Transfer-Encoding': 'chunked'}))
+            env = make_environ(case['method'], '/q', qs=qs, stream=FragStream(wire, case.get('pattern') or []), content_length=None, headers=dict(headers, **{'Transfer-Encoding': ['chunked', 'Chunked', 'CHUNKED', 'gzip, chunked', ' chunked '][case['style'][-1] % 5]}))
         else:
             # the form arrives as a socket delivers it: read(n) may return fewer bytes than asked for
             env = make_environ(case['method'], '/q', qs=qs, stream=FragStream(body, case.get('pattern') or []), content_length=len(body), headers=headers)
